@@ -23,7 +23,7 @@ RULE = (
     "and inner dict (also handed over as a MappingProxyType view of a dict the caller keeps), load_adj_dict input and rows, load_adj_matrix matrix, rows and side array.  Mutations: "
     "append, extend, insert, remove/pop, clear, sort, reverse, item assignment/deletion, add/discard/update as the "
     "type permits (TypeError/AttributeError = immutable, accepted).  After every mutation the structural snapshot "
-    "and the full query battery must equal their values before it.  Every accessor is also read TWICE in a row with nothing in between: mutating the first result may not change the second.  Non-trivial = the world has >= 2 links and at "
+    "and the full query battery must equal their values before it.  Mutations include the in-place operators (|=, &=, +=, *=).  Every accessor is also read TWICE in a row with nothing in between: mutating the first result may not change the second.  Non-trivial = the world has >= 2 links and at "
     "least one mutation of an exchanged container succeeded; distinct = distinct (world, caching) case; the "
     "evidence classes count (exchange point, outcome) pairs."
 )
@@ -53,6 +53,12 @@ def strategy(tier):
         st.integers(0, 4),
         st.integers(0, 4),
     )
+
+
+def _nm(x):
+    """Name of a class - or the repr of whatever foreign object turned up in its place (observers must not choke on
+    the junk a leaked mutation left behind: that is exactly what they are there to report)."""
+    return getattr(x, "__name__", None) or repr(x)
 
 
 class Junk:
@@ -116,7 +122,7 @@ class WorldX:
             [[vi.get(id(x), "?") for x in l.vertices] for l in self.ls],
             [vi.get(id(x), "?") for x in self.uni.vertices],
             [[1 if u is self.uni else "?" for u in v.universes] for v in self.vs],
-            None if self.uni.laws.edge_whitelist is None else sorted((k.__name__, sorted((a.__name__, b.__name__) for a, b in v.items())) for k, v in self.uni.laws.edge_whitelist.items()),
+            None if self.uni.laws.edge_whitelist is None else sorted((_nm(k), sorted((_nm(a), _nm(b)) for a, b in v.items()) if hasattr(v, "items") else repr(v)) for k, v in self.uni.laws.edge_whitelist.items()),
         ]
         from edgegraph.traversal import breadthfirst as _B
 
@@ -347,7 +353,7 @@ def _in_points(W, case, junk, verify, classes):
         given = [inner, types.MappingProxyType(inner), collections.ChainMap(inner, base_layer)][(W.a + W.b) % 3]
         outer = {Vertex: given, Universe: {Vertex: DirectedEdge}}
         laws = UniverseLaws(edge_whitelist=outer)
-        return [outer, inner, base_layer], lambda: sorted((k.__name__, sorted((a.__name__, b.__name__) for a, b in v.items())) for k, v in laws.edge_whitelist.items())
+        return [outer, inner, base_layer], lambda: sorted((_nm(k), sorted((_nm(a), _nm(b)) for a, b in v.items()) if hasattr(v, "items") else repr(v)) for k, v in laws.edge_whitelist.items())
 
     def mk_adjdict():
         fresh = [Vertex(attributes={"i": 100 + i}) for i in range(3)]
